@@ -1003,6 +1003,7 @@ private:
         node_ptr curr = search_result.first;
 
         while (!try_insert(prev, new_node, curr)) {
+            __TBB_VERIF_POINT(vp_cu_cas_failed, this, 0);
             search_result = search_after(prev, order_key, key);
             if (search_result.second) {
                 return internal_insert_return_type{ new_node, search_result.first, false };
@@ -1041,6 +1042,7 @@ private:
         // Grow the table by a factor of 2 if possible and needed
         if ( (float(total_elements) / float(current_size)) > my_max_load_factor ) {
             // Double the size of the hash only if size hash not changed in between loads
+            __TBB_VERIF_POINT(vp_cu_table_double, this, current_size);
             my_bucket_count.compare_exchange_strong(current_size, 2u * current_size);
         }
     }
@@ -1074,6 +1076,7 @@ private:
     // If the next is not equal to expected next - return false
     static bool try_insert( node_ptr prev_node, node_ptr new_node, node_ptr current_next_node ) {
         new_node->set_next(current_next_node);
+        __TBB_VERIF_POINT(vp_cu_before_cas, prev_node, 0);
         return prev_node->try_set_next(current_next_node, new_node);
     }
 
@@ -1099,6 +1102,7 @@ private:
             return;
         }
 
+        __TBB_VERIF_POINT(vp_cu_init_bucket, this, bucket);
         size_type parent_bucket = get_parent(bucket);
 
         while (my_segments[parent_bucket].load(std::memory_order_acquire) == nullptr) {
